@@ -68,8 +68,7 @@ func zzEvmProgram(prefix, ending int) []byte {
 // real applyTransaction, eth-kit's state transition and EVM interpreter and the real ledger. A FAILED
 // receipt leaves storage, code and every balance but the sender's untouched; the sender loses at
 // most gasUsed*gasPrice and its nonce advances by at most one; a SUCCESS moves exactly the value.
-// zz:also C08
-// zz:also C14
+// zz:also C08 C14
 func ZZH_C07_eth() {
 	exec := zzNewExec(1, big.NewInt(1))
 	contract := zzAddr(zzEvmContract)
